@@ -521,6 +521,15 @@ const VARIANT_FNS: [&str; 6] = ["f", "g", "h", "len", "str::from", "max"];
 /// a different set of names, so that tables built on different threads differ in content only.
 fn build_variant_context(variant: usize) -> Ctx {
     let mut ctx = Ctx::new();
+    if variant >= 100 {
+        // light flavour: one function only (its registration is the table's last change)
+        let name = VARIANT_FNS[variant % VARIANT_FNS.len()];
+        let _ = ctx.set_function(
+            name.to_string(),
+            Function::new(move |arg: &V| Ok(sentinel("k", arg))),
+        );
+        return ctx;
+    }
     for i in 0..3 {
         let name = VARIANT_FNS[(variant + 2 * i) % VARIANT_FNS.len()];
         let behaviour: &'static str = ["k", "g", "f"][i];
@@ -533,12 +542,37 @@ fn build_variant_context(variant: usize) -> Ctx {
     ctx
 }
 
+/// Orders the contexts built by the threads build-index-major (all first contexts, then all second
+/// ones, ...): contexts built at about the same time on different threads become neighbours.
+pub fn interleave(per_thread: Vec<Vec<Ctx>>) -> Vec<Ctx> {
+    let mut iters: Vec<std::vec::IntoIter<Ctx>> = per_thread.into_iter().map(|v| v.into_iter()).collect();
+    let mut out = Vec::new();
+    loop {
+        let mut any = false;
+        for it in iters.iter_mut() {
+            if let Some(c) = it.next() {
+                out.push(c);
+                any = true;
+            }
+        }
+        if !any {
+            return out;
+        }
+    }
+}
+
 /// Probes all contexts name-major (the same name on every context in turn, then the next name):
 /// function lookups through `call_function` and through a one-call tree.
 pub fn probe_contexts(all: &[Ctx]) -> Vec<String> {
     let mut out = Vec::new();
     let arg = Value::Tuple(vec![Value::Int(2), Value::Int(5)]);
-    for name in VARIANT_FNS.iter().chain(["typeof", "nofn"].iter()) {
+    // (under Miri only the names that are builtins as well, plus one that is not)
+    let names: Vec<&str> = if cfg!(miri) {
+        vec!["len", "str::from", "max", "f"]
+    } else {
+        VARIANT_FNS.iter().chain(["typeof", "nofn"].iter()).copied().collect()
+    };
+    for name in names.iter() {
         let tree = verifsim::prog::Expr::Call(
             name.to_string(),
             Some(Box::new(verifsim::prog::Expr::Lit(arg.clone()))),
@@ -583,13 +617,13 @@ pub fn sequential(w: &Workload, sh: &Shared) -> Vec<Vec<String>> {
 /// Sequential baseline that also returns the probe results of the contexts built on the way.
 pub fn sequential_with_contexts(w: &Workload, sh: &Shared) -> (Vec<Vec<String>>, Vec<String>) {
     let _ = take_built();
-    let mut all: Vec<Ctx> = Vec::new();
+    let mut per_thread: Vec<Vec<Ctx>> = Vec::new();
     let mut results = Vec::new();
     for ops in &w.threads {
         results.push(ops.iter().map(|o| exec(o, sh)).collect());
-        all.extend(take_built());
+        per_thread.push(take_built());
     }
-    let probes = probe_contexts(&all);
+    let probes = probe_contexts(&interleave(per_thread));
     (results, probes)
 }
 
@@ -694,11 +728,11 @@ pub fn run(w: &Workload, cfg: sched::SimConfig) -> Result<RunOutcome, String> {
     }
     if finding.is_none() {
         // contexts built on the simulated threads, moved to the main thread, probed name-major
-        let mut all: Vec<Ctx> = Vec::new();
-        for b in built.iter() {
-            all.extend(std::mem::take(&mut *b.lock().unwrap()));
-        }
-        let probes = probe_contexts(&all);
+        let per_thread: Vec<Vec<Ctx>> = built
+            .iter()
+            .map(|b| std::mem::take(&mut *b.lock().unwrap()))
+            .collect();
+        let probes = probe_contexts(&interleave(per_thread));
         if probes != expected_probes {
             let (k, e, a) = expected_probes
                 .iter()
@@ -866,6 +900,9 @@ pub fn miri_workload(seed: u64) -> Workload {
                 let mut ops = Vec::new();
                 // every thread builds contexts first (same setup routine, different tables): after
                 // the run they are all probed on the main thread
+                for k in 0..6 {
+                    ops.push(TOp::BuildContext { variant: 100 + t + k });
+                }
                 ops.push(TOp::BuildContext { variant: t });
                 ops.push(TOp::BuildContext { variant: t + 3 });
                 if t % 2 == 0 {
@@ -915,7 +952,7 @@ pub fn miri_scenario(seed: u64) -> i32 {
         Err(_) => return 0,
     };
     let mut results: Vec<Vec<String>> = Vec::new();
-    let mut built: Vec<Ctx> = Vec::new();
+    let mut built: Vec<Vec<Ctx>> = Vec::new();
     std::thread::scope(|scope| {
         let mut handles = Vec::new();
         for ops in w.threads.iter() {
@@ -930,13 +967,16 @@ pub fn miri_scenario(seed: u64) -> i32 {
             match h.join() {
                 Ok((r, b)) => {
                     results.push(r);
-                    built.extend(b);
+                    built.push(b);
                 },
-                Err(_) => results.push(vec!["PANIC".to_string()]),
+                Err(_) => {
+                    results.push(vec!["PANIC".to_string()]);
+                    built.push(Vec::new());
+                },
             }
         }
     });
-    let probes = probe_contexts(&built);
+    let probes = probe_contexts(&interleave(built));
     if cold_first {
         let (e, p) = sequential_with_contexts(&w, &reference);
         expected = e;
@@ -1079,7 +1119,9 @@ pub fn gen_workload_sized(rng: &mut Rng, small: bool) -> Workload {
                 _ => {
                     match rng.below(5) {
                         0 | 1 => TOp::EvalImplicit { tree: rng.usize_below(n_trees) },
-                        2 | 3 => TOp::BuildContext { variant: rng.usize_below(6) },
+                        2 | 3 => TOp::BuildContext {
+                            variant: if rng.percent(50) { rng.usize_below(6) } else { 100 + rng.usize_below(6) },
+                        },
                         _ => TOp::Panicky { arg: *rng.pick(&[13i64, 14, 13, 2]) },
                     }
                 },
